@@ -13,6 +13,7 @@ from typing_extensions import override
 import pyairtouch.api
 import pyairtouch.at5.comms.hdr
 import pyairtouch.at5.comms.registry
+import pyairtouch.at5.comms.utils
 import pyairtouch.at5.comms.x1FFF10_err_info as err_info_msg
 import pyairtouch.at5.comms.x1FFF30_console_ver as console_ver_msg
 import pyairtouch.at5.comms.x1FFF49_quick_timer as quick_timer_msg
@@ -192,10 +193,13 @@ class At5Zone(pyairtouch.api.Zone):
             raise ValueError(
                 "Cannot change temperature for zones without a temperature sensor"
             )
+        set_point = round(temperature, ndigits=1)
+        encoded_set_point = pyairtouch.at5.comms.utils.encode_set_point(set_point)
+        if encoded_set_point < 0 or encoded_set_point > 255:  # noqa: PLR2004
+            # The value doesn't fit into the message, so it could never be sent.
+            raise ValueError(f"temperature {temperature} cannot be represented")
         await self._send_zone_control_message(
-            zone_setting=zone_ctrl_msg.ZoneSetPointControl(
-                round(temperature, ndigits=1)
-            )
+            zone_setting=zone_ctrl_msg.ZoneSetPointControl(set_point)
         )
 
     @override
